@@ -546,7 +546,24 @@ def gen_tokenizer_arms():
                 order.append("if " + guard)
             else:
                 order.append(p)
+    # the inner loops: what continues an identifier / a number; where a comment stops; how a literal gets its value
+    loops = []
+    for pat, abody in split_arms(blk, "tokenize"):
+        p = re.sub(r"\s+", " ", pat).strip()
+        for m in re.finditer(r"while let Some\(\((\w+), (\w+)\)\) = iter\.peek\(\) \{\s*if (.*?) \{\s*iter\.next\(\);", re.sub(r"\s+", " ", abody)):
+            cond = m.group(3).replace("*" + m.group(2), "d").replace(m.group(2) + ".", "d.")
+            cond = " || ".join(sorted(x.strip() for x in cond.split("||")))
+            loops.append((("ident" if "alphabetic" in p else "number" if "'0'" in p else "comment" if "#" in p else p)[:20], cond))
+    literal_value = "?"
+    for pat, abody in split_arms(blk, "tokenize"):
+        if "'0'" in pat:
+            value = re.search(r"Variant::IntegerLiteral\(\s*(.*?)\s*,?\s*\)\s*,\s*\}\s*\)", re.sub(r"\s+", " ", abody))
+            if value: literal_value = re.sub(r"\s+", "", value.group(1))
     out = ["import GramModel.Token", "", "/-! GENERATED by extract/arms.py from /repo/src/tokenizer.rs — do not edit. -/", "", "namespace Generated", "",
+           "/-- the `while let Some((j, d)) = iter.peek() { if COND { iter.next() } … }` loops: (arm, COND with `||` operands sorted) -/",
+           "def scanLoops : List (String × String) := [" + ", ".join('("%s", "%s")' % (a, c.replace('"', '\\"')) for a, c in loops) + "]", "",
+           "/-- how an integer literal gets its value -/",
+           'def literalValue : String := "%s"' % literal_value.replace('"', '\\"'), "",
            "/-- the symbol arms of `tokenize`: (first character, second character if the arm peeks, byte length of the token, kind) -/",
            "def symbolArms : List (Char × Option Char × Nat × TokKind) := [",
            ",\n".join("  ('%s', %s, %d, %s)" % (c, ("some '%s'" % d) if d else "none", n, k) for c, d, n, k in rows), "]", "",
